@@ -741,7 +741,9 @@ class SignedFunction(Function):
     for name, arg, formal in self.signature.iter_args(args):
       if formal is None:
         continue
-      if name in (self.signature.varargs_name, self.signature.kwargs_name):
+      if (
+          name == self.signature.varargs_name and arg is args.starargs
+      ) or (name == self.signature.kwargs_name and arg is args.starstarargs):
         # The annotation is Tuple or Dict, but the passed arg only has to be
         # Iterable or Mapping.
         formal = self.ctx.convert.widen_type(formal)
